@@ -25,7 +25,7 @@ STUBBED_NAMES = fsmodel.STUBBED_NAMES
 ASSUMPTIONS = [fastenv.ASSUMPTION, "file-system model = POSIX as validated by the differential self-test of this run", "clock stub"]
 OUTSIDE = ["pipelines other than P3 (depth 3, shared sub-node, run-time-argument keep) and P1", "failures inside dds's own analysis", "DBFS store"]
 FUNCTIONS_ENCODED = ["dds._api._eval", "dds._api._eval_new_ctx", "dds._api.keep", "dds._api.eval", "dds._api.load", "dds.store.MemoryStore.*", "dds.store.LocalFileStore.*"]
-BOUNDS = {"quick": {"failing invocation": "every one of the 5 invocations of the cold run", "exception classes": ["ValueError subclass", "KeyboardInterrupt", "BaseException subclass", "FileNotFoundError (an OSError, like the store's own I/O errors)"], "follow-ups": ["same pipeline repaired", "other pipeline"], "stores": ["memory", "local"]}}
+BOUNDS = {"quick": {"failing invocation": "every one of the 5 invocations of the cold run", "exception classes": ["ValueError subclass", "KeyboardInterrupt", "BaseException subclass", "FileNotFoundError (an OSError, like the store's own I/O errors)"], "follow-ups": ["same pipeline repaired", "other pipeline", "the same failing evaluation again"], "stores": ["memory", "local"]}}
 BOUNDS["thorough"] = dict(BOUNDS["quick"], payload="symbolic ASCII str <= 2 chars (quick: <= 1)")
 LAST_DETAIL = [""]
 INT_DIR, DATA_DIR = "/s/int", "/s/data"
@@ -71,7 +71,7 @@ def fail_impl(a):
     sel = h.SEL
     k = a["k"]
     ek = a["ek"]
-    follow = a["follow"]
+    follow = sel["follow"] if "follow" in sel else a["follow"]
     n = 3
     tick.PAYLOAD.clear()
     tick.PAYLOAD.update({"p": a["pay"], "inner": a["pay"], "outer": ""})
@@ -127,6 +127,32 @@ def fail_impl(a):
             ok = bad("paths were committed: %r" % (rec.synced,))
         if sel["store"] == "local" and [p for p in fs.nodes if p.startswith(DATA_DIR + "/")]:
             ok = bad("the data directory is not empty: %r" % ([p for p in fs.nodes if p.startswith(DATA_DIR + "/")],))
+    if ok and follow == 2:
+        # the SAME failing evaluation once more (the blobs of the completed nodes are in the store now): still nothing committed
+        tick.reset()
+        tick.FAIL.update({"at": k - len([c for c in p3.ORDER[:k] if c in p3.COMPLETED_BEFORE[failing]]), "exc": exc, "n": 0})
+        got2 = None
+        try:
+            dds.eval(p3.top, n)
+            got2 = "returned"
+        except DDSException as e:
+            got2 = e
+        except BaseException as e:
+            if e is exc or (isinstance(e, Exception) and type(e).__module__ == "builtins"):
+                got2 = e
+            else:
+                raise
+        finally:
+            tick.FAIL.update({"at": -1, "exc": None})
+        if got2 is not exc:
+            ok = bad("second failing evaluation: dds did not propagate the same exception object (got %r)" % (got2,))
+        if ok and api._eval_ctx is not None:
+            ok = bad("second failing evaluation: the evaluation context is still set")
+        if ok and rec.synced:
+            ok = bad("second failing evaluation: paths were committed: %r" % (rec.synced,))
+        if ok and sel["store"] == "local" and [p for p in fs.nodes if p.startswith(DATA_DIR + "/")]:
+            ok = bad("second failing evaluation: the data directory is not empty: %r" % ([p for p in fs.nodes if p.startswith(DATA_DIR + "/")],))
+        return h.verdict(ok)
     if ok:
         # the next evaluation in the same process
         tick.reset()
@@ -156,13 +182,14 @@ def fail_impl(a):
 
 
 def make_fn(fn, sel, tag):
-    return h.gen_fn(tag, "fail", [("k", "int"), ("ek", "int"), ("follow", "int"), ("pay", "str")], ["0 <= k <= 4", "0 <= ek <= 3", "0 <= follow <= 1", "len(pay) <= %d and pay.isascii()" % sel.get("plen", 1)], "harness.C10", "fail_impl")
+    return h.gen_fn(tag, "fail", [("k", "int"), ("ek", "int"), ("pay", "str")], ["0 <= k <= 4", "0 <= ek <= 3", "len(pay) <= %d and pay.isascii()" % sel.get("plen", 1)], "harness.C10", "fail_impl")
 
 
 def queries(tier):
+    fl = ["repaired", "other", "again"]
     if tier == "thorough":
-        return [{"id": "fail.%s" % s, "fn": "fail", "sel": {"store": s, "plen": 2}, "timeout": 1800} for s in ("memory", "local")]
-    return [{"id": "fail.%s" % s, "fn": "fail", "sel": {"store": s}, "timeout": 400} for s in ("memory", "local")]
+        return [{"id": "fail.%s.%s" % (s, fl[f]), "fn": "fail", "sel": {"store": s, "follow": f, "plen": 2}, "timeout": 1800} for s in ("memory", "local") for f in range(3)]
+    return [{"id": "fail.%s.%s" % (s, fl[f]), "fn": "fail", "sel": {"store": s, "follow": f}, "timeout": 400} for s in ("memory", "local") for f in range(3)]
 
 
 def functions_encoded():
